@@ -17,6 +17,7 @@ impl ModuleLoader {
     pub(crate) fn compile_module(
         &mut self,
         file_path: &Path,
+        module_key: &str,
         module_path_str: &str,
         needs: &aelys_syntax::NeedsStmt,
         vm: &mut VM,
@@ -52,7 +53,7 @@ impl ModuleLoader {
             native_functions: Vec::new(),
         };
         self.loaded_modules
-            .insert(module_path_str.to_string(), module_info);
+            .insert(module_key.to_string(), module_info);
 
         let original_base_dir = self.base_dir.clone();
         let original_base_root = self.base_root.clone();
@@ -82,8 +83,7 @@ impl ModuleLoader {
                     }
                 }
 
-                let nested_module_path = nested_needs.path.join(".");
-                if let Some(module_info) = self.get_module(&nested_module_path) {
+                if let Some(module_info) = self.get_module_for(&nested_needs.path) {
                     for native_name in &module_info.native_functions {
                         known_native_globals.insert(native_name.clone());
                     }
